@@ -307,3 +307,34 @@ Theorem C01_keywords_subparser_roundtrip_partial : forall depth a ks n post o e 
              (Ok (upd_fields a (set_keywords (a_fields a) ks), None), s') /\ rest s' = post /\ stk s' = fr :: k.
 Proof. exact p_keywords_roundtrip. Qed.
 Print Assumptions C01_keywords_subparser_roundtrip_partial.
+
+(* VERSION, COMMENT and DEFINITION likewise (sub_of (Map (genbankFieldParser
+   name) setter)): the accumulator with exactly that field set / appended, no
+   error, stopping where the next field begins; DEFINITION is written with a
+   final period which the sub-parser takes off again *)
+Theorem C01_version_subparser_roundtrip_partial : forall depth a v post o e ap fr k,
+  zlen n_VERSION <= depth -> no_eol v -> is_prefix (repeat_byte 32 depth) post = false ->
+  exists s', p_version depth a
+               (mkst ((n_VERSION ++ repeat_byte 32 (depth - zlen n_VERSION) ++ v ++ [10]) ++ post) o e ap (fr :: k)) =
+             (Ok (upd_fields a (set_version (a_fields a) v), None), s') /\ rest s' = post /\ stk s' = fr :: k.
+Proof. exact p_version_roundtrip. Qed.
+Print Assumptions C01_version_subparser_roundtrip_partial.
+
+Theorem C01_comment_subparser_roundtrip_partial : forall depth a l0 ls post o e ap fr k,
+  zlen n_COMMENT <= depth -> no_eol l0 -> Forall no_eol ls -> is_prefix (repeat_byte 32 depth) post = false ->
+  exists s', p_comment depth a
+               (mkst (n_COMMENT ++ repeat_byte 32 (depth - zlen n_COMMENT) ++
+                      (add_prefix (l0 ++ joined 10 ls) (repeat_byte 32 depth) ++ [10]) ++ post) o e ap (fr :: k)) =
+             (Ok (upd_fields a (add_comment (a_fields a) (l0 ++ joined 10 ls)), None), s') /\ rest s' = post /\ stk s' = fr :: k.
+Proof. exact p_comment_roundtrip. Qed.
+Print Assumptions C01_comment_subparser_roundtrip_partial.
+
+Theorem C01_definition_subparser_roundtrip_partial : forall depth a l0 ls post o e ap fr k,
+  zlen n_DEFINITION <= depth -> no_eol l0 -> Forall no_eol ls -> is_prefix (repeat_byte 32 depth) post = false ->
+  let d := l0 ++ joined 10 ls in
+  exists s', p_definition depth a
+               (mkst (n_DEFINITION ++ repeat_byte 32 (depth - zlen n_DEFINITION) ++
+                      (add_prefix (d ++ [46]) (repeat_byte 32 depth) ++ [10]) ++ post) o e ap (fr :: k)) =
+             (Ok (upd_fields a (set_definition (a_fields a) d), None), s') /\ rest s' = post /\ stk s' = fr :: k.
+Proof. exact p_definition_roundtrip. Qed.
+Print Assumptions C01_definition_subparser_roundtrip_partial.
